@@ -28,6 +28,7 @@
 #include <filesystem>
 #include <memory>
 #include <optional>
+#include <sys/mman.h>
 #include <sys/wait.h>
 
 namespace fs = std::filesystem;
@@ -73,6 +74,7 @@ struct RunDef {
     std::vector<std::vector<float>> data; // [ministep][slot]
     StartDate start{2000, 1, 1, 0, 0, 0};
     int smspecRewrites = 0;
+    double timeUnitSeconds = 86400.0;     // TIME is in days (hours in the LAB convention)
     std::string smspecPath() const { return dir + "/" + name + (fmt ? ".FSMSPEC" : ".SMSPEC"); }
     std::string describe() const {
         std::ostringstream o;
@@ -308,6 +310,7 @@ struct Chain {
     std::vector<const RunDef*> runs;                     // deepest base first, the run opened last
     std::vector<std::pair<int, int>> steps;              // (index into runs, ministep index in that run)
     std::vector<std::string> keys;                       // sorted union of lookup keys
+    std::vector<std::string> topKeys;                    // sorted lookup keys of the run that is opened
     std::map<std::string, std::vector<int>> slot;        // key -> slot per run (-1: the run does not have it)
     std::vector<int> rstep;                              // indices into steps of the last ministep of every report step
     bool allStepsAvailable = true;
@@ -330,7 +333,7 @@ static Chain makeChain(const std::vector<const RunDef*>& runs) {
             sl[ri] = (int)i;
         }
     }
-    for (auto& kv : c.slot) c.keys.push_back(kv.first);
+    for (auto& kv : c.slot) { c.keys.push_back(kv.first); if (kv.second.back() >= 0) c.topKeys.push_back(kv.first); }
     for (size_t s = 0; s < c.steps.size(); ++s) {
         const bool last = s + 1 == c.steps.size();
         const auto rep = [&](size_t q) { return c.runs[c.steps[q].first]->reportOf[c.steps[q].second]; };
@@ -351,11 +354,20 @@ struct Monitor {
     std::string caseText;
     std::string ctx;      // context of the observation, part of every key: ":restart", ":layout-differs", ...
     bool ministepIdsKnown = true;
+    std::vector<std::string> available;   // sorted keys the reader at hand lists (set by checkStructure)
+    std::vector<std::string> listed(const std::vector<std::string>& keys) const {
+        std::vector<std::string> v;
+        for (const auto& k : keys) if (std::binary_search(available.begin(), available.end(), k)) v.push_back(k);
+        return v;
+    }
     long mismatches = 0;
 
-    void viol(const std::string& key, const std::string& what, const std::string& detail) {
+    std::string contextKey;   // non-empty: the case belongs to an input class in which every observation (other than those whose
+                              // cause is identified by the observation itself) is attributed to this one key
+    void viol(const std::string& key, const std::string& what, const std::string& detail, bool causeIdentified = false) {
         ++mismatches;
-        rep.violation(key, what, caseText + "--- observation ---\n" + what + "\n" + detail);
+        const std::string k = (!contextKey.empty() && !causeIdentified) ? contextKey : key;
+        rep.violation(k, what, caseText + "--- observation ---\n" + what + "\n" + detail + (k != key ? "(observation class: " + key + ")\n" : ""));
     }
 
     // series of one reader against the chain; `get` returns the vector for a key
@@ -363,6 +375,7 @@ struct Monitor {
     void series(const std::string& reader, const Chain& c, const std::vector<std::string>& keys, Get&& get, bool seekPath) {
         const std::string& sfx = ctx;
         long n = 0;
+        bool partialLengthReported = false;
         for (const auto& key : keys) {
             const std::vector<float>& got = get(key);
             const auto& sl = c.slot.at(key);
@@ -371,8 +384,10 @@ struct Monitor {
                 o << reader << ": series " << key << " has " << got.size() << " entries, " << c.steps.size() << " ministeps were written";
                 bool partial = false;
                 for (int x : sl) if (x < 0) partial = true;
-                viol("series-length:" + reader + (partial ? ":vector-not-in-every-run" : "") + sfx, o.str(), "");
-                return;
+                if (!partial || !partialLengthReported) viol("series-length:" + reader + (partial ? ":vector-not-in-every-run" : "") + sfx, o.str(), "");
+                if (!partial) return;
+                partialLengthReported = true;   // a vector some run of the chain does not have: one witness, the other vectors are still compared
+                continue;
             }
             for (size_t s = 0; s < c.steps.size(); ++s) {
                 const RunDef& run = *c.runs[c.steps[s].first];
@@ -396,7 +411,7 @@ struct Monitor {
                 std::ostringstream d;
                 d << "vector: KEYWORDS='" << run.vecs[slot].kw << "' WGNAMES='" << run.vecs[slot].wg << "' NUMS=" << run.vecs[slot].num
                   << " field text written: '" << (run.fmt ? fieldText(written) : std::string("(binary)")) << "'\n";
-                viol(key_, o.str(), d.str());
+                viol(key_, o.str(), d.str(), key_ == "formatted-loadData-vectList-overread");
                 rep.count("values_compared", n);
                 return;   // one witness per reader and case
             }
@@ -439,10 +454,12 @@ static bool checkStructure(Monitor& m, const std::string& reader, R& e, const Ch
     }
     std::vector<std::string> got = e.keywordList();
     std::sort(got.begin(), got.end());
-    if (got != c.keys) {
-        std::vector<std::string> missing, extra;
-        std::set_difference(c.keys.begin(), c.keys.end(), got.begin(), got.end(), std::back_inserter(missing));
-        std::set_difference(got.begin(), got.end(), c.keys.begin(), c.keys.end(), std::back_inserter(extra));
+    // Every vector of the run that is opened must be there and nothing that no run of the chain wrote.  Whether vectors that
+    // only a base run has are listed is left to the reader (ESmry lists them, ExtESmry does not): nothing is demanded of them.
+    std::vector<std::string> missing, extra;
+    std::set_difference(c.topKeys.begin(), c.topKeys.end(), got.begin(), got.end(), std::back_inserter(missing));
+    std::set_difference(got.begin(), got.end(), c.keys.begin(), c.keys.end(), std::back_inserter(extra));
+    if (!missing.empty() || !extra.empty()) {
         std::ostringstream o;
         o << reader << ": key list differs from the vectors written: " << missing.size() << " missing, " << extra.size() << " unexpected;";
         for (size_t i = 0; i < missing.size() && i < 4; ++i) o << " missing '" << missing[i] << "'";
@@ -450,8 +467,9 @@ static bool checkStructure(Monitor& m, const std::string& reader, R& e, const Ch
         m.viol("keys:" + reader + sfx, o.str(), "");
         return false;
     }
-    if ((size_t)e.numberOfVectors() != c.keys.size())
-        m.viol("nvectors:" + reader + sfx, reader + ": numberOfVectors() = " + std::to_string(e.numberOfVectors()) + " but " + std::to_string(c.keys.size()) + " addressable vectors were written", "");
+    if ((size_t)e.numberOfVectors() != got.size())
+        m.viol("nvectors:" + reader + sfx, reader + ": numberOfVectors() = " + std::to_string(e.numberOfVectors()) + " but keywordList() has " + std::to_string(got.size()) + " entries", "");
+    m.available.assign(got.begin(), got.end());
     return true;
 }
 
@@ -461,14 +479,14 @@ static bool checkFrame(Monitor& m, const std::string& reader, R& e, const Chain&
     const std::string& sfx = m.ctx;
     const RunDef& top = c.top();
     if (!structureDone && !checkStructure(m, reader, e, c)) return false;
-    for (const auto& k : c.keys) {
+    for (const auto& k : m.available) {
         const auto& sl = c.slot.at(k);
         // unit as written by the run that is opened (base runs carry the same unit when they have the vector)
         const int slot = sl.back();
         if (slot < 0) continue;
         const std::string& u = e.get_unit(k);
         if (u != top.vecs[slot].unit) {
-            m.viol("units:" + reader + sfx, reader + ": unit of " + k + " read as '" + u + "', written '" + top.vecs[slot].unit + "'", "");
+            m.viol("units:" + reader + (k == "YEARS" ? ":YEARS" : sfx), reader + ": unit of " + k + " read as '" + u + "', written '" + top.vecs[slot].unit + "'", "", k == "YEARS");
             break;
         }
     }
@@ -482,7 +500,7 @@ static bool checkFrame(Monitor& m, const std::string& reader, R& e, const Chain&
             o << reader << ": startdate() is " << (long long)got << " s since epoch, written " << (long long)es << " (" << top.start.y << "-" << top.start.m << "-"
               << top.start.d << " " << top.start.hh << ":" << top.start.mi << ":" << top.start.ss << ")";
             const bool onlySeconds = (long long)got == (long long)(es - top.start.ss);
-            m.viol("startdate:" + reader + (onlySeconds ? ":seconds-dropped" : ""), o.str(), "");
+            m.viol("startdate:" + reader + (onlySeconds ? ":seconds-dropped" : sfx), o.str(), "", onlySeconds);
         }
     }
     // report step positions: value at the last ministep of every report step
@@ -509,22 +527,28 @@ static bool checkFrame(Monitor& m, const std::string& reader, R& e, const Chain&
         const auto d = e.dates();
         bool ok = d.size() == c.steps.size();
         size_t bad = 0;
-        int64_t wantSec = 0, gotSec = 0;
+        int64_t wantSec = 0, gotSec = 0, baseSec = 0;
+        double tBad = 0;
         for (size_t s = 0; ok && s < d.size(); ++s) {
             const RunDef& run = *c.runs[c.steps[s].first];
             const float t = expectRead(run.fmt, run.data[c.steps[s].second][0]);
             // start + TIME days; the readers keep whole seconds -> one second of slack, nothing finer is demanded.  The readers take
             // the start second from their own startdate(): a start-date defect is reported there, not a second time here.
-            const double sec = (double)t * 86400.0;
+            const double sec = (double)t * run.timeUnitSeconds;
             const int64_t base = std::chrono::duration_cast<std::chrono::seconds>(e.startdate().time_since_epoch()).count();
+            baseSec = base;
+            tBad = (double)t;
             wantSec = base + (int64_t)sec;
             gotSec = std::chrono::duration_cast<std::chrono::seconds>(d[s].time_since_epoch()).count();
             if (std::llabs(wantSec - gotSec) > 1) { ok = false; bad = s; }
         }
         if (!ok) {
             std::ostringstream o;
-            o << reader << ": dates() has " << d.size() << " entries for " << c.steps.size() << " ministeps, or entry " << bad << " is " << gotSec << " s since epoch where start + TIME gives " << wantSec;
-            m.viol("dates:" + reader + sfx, o.str(), "");
+            o << reader << ": dates() has " << d.size() << " entries for " << c.steps.size() << " ministeps, or entry " << bad << " is " << gotSec << " s since epoch where start + TIME ("
+              << (top.timeUnitSeconds == 86400.0 ? "days" : "hours") << ") gives " << wantSec;
+            // a reader that takes TIME for days although the run wrote hours (LAB convention) is one defect whatever the chain looks like
+            const bool asDays = top.timeUnitSeconds != 86400.0 && d.size() == c.steps.size() && std::llabs(gotSec - (baseSec + (int64_t)(tBad * 86400.0))) <= 1;
+            m.viol(asDays ? "dates-take-hours-for-days:" + reader.substr(0, reader.find_first_of(".(")) : "dates:" + reader + sfx, o.str(), "", asDays);
         }
         m.rep.count("dates_compared", (long)d.size());
     }
@@ -592,26 +616,32 @@ static bool examine(vh::Reporter& rep, Rng& rng, Monitor& m, const std::vector<c
     const auto ctxOf = [&](bool withBase) {
         std::string c;
         if (withBase) c = std::string(":restart") + (o.layoutClass == 1 ? ":layout-permuted" : o.layoutClass == 2 ? ":layout-differs" : "");
-        if (o.tailName) c += ":tail-name";
         return c;
     };
+    // separate files "<X>CASE.S0001" of another run next to those of the run "CASE" that is opened: one input class, one key
+    m.contextKey = o.tailName ? "separate-files-of-other-run-picked-up" : "";
+    // whether a reader failed while it was being constructed or later, also when it dies in a child process
+    static int* const phase = (int*)mmap(nullptr, sizeof(int), PROT_READ | PROT_WRITE, MAP_SHARED | MAP_ANONYMOUS, -1, 0);
+    const auto opened = [&] { *phase = 1; };
     int sectionsDone = 0;
     const auto section = [&](const std::string& what, bool withBase, auto&& body) {
         m.ctx = ctxOf(withBase);
+        *phase = 0;
+        const auto where = [&] { return *phase == 0 ? what.substr(0, what.find_first_of(".(")) + "(open)" : what; };
         const auto guarded = [&] {
             try {
                 body();
                 return true;
             } catch (const std::exception& ex) {
                 const std::string msg = ex.what();
-                m.viol("reader-exception:" + what + m.ctx, what + " refused files written by the library's writers: " + msg.substr(0, 300), "");
+                m.viol("reader-exception:" + where() + m.ctx, where() + " refused files written by the library's writers: " + msg.substr(0, 300), "");
                 return false;
             }
         };
         // Opening a run together with base runs whose vector layout differs is known to index out of bounds in the ESmry
-        // constructor (6.x of the report): such sections run in a child process so that the death of the reader is an
-        // observation with a stable key and the remaining sections and cases are still examined.
-        const bool isolate = withBase && o.layoutClass != 0 && !o.noFork;
+        // constructor, and so does ExtESmry for a nested chain: such sections run in a child process so that the death of
+        // the reader is an observation with a stable key and the remaining sections and cases are still examined.
+        const bool isolate = withBase && (o.layoutClass != 0 || depth > 1) && !o.noFork;
         if (!isolate) {
             if (guarded()) ++sectionsDone;
             return;
@@ -628,7 +658,7 @@ static bool examine(vh::Reporter& rep, Rng& rng, Monitor& m, const std::vector<c
         int status = 0;
         if (pid < 0 || waitpid(pid, &status, 0) < 0) { if (guarded()) ++sectionsDone; return; }
         if (WIFSIGNALED(status)) {
-            m.viol("reader-crash:" + what + m.ctx, what + " died with signal " + std::to_string(WTERMSIG(status)) + " (" + strsignal(WTERMSIG(status)) + ") on files written by the library's writers", "");
+            m.viol("reader-crash:" + where() + m.ctx, where() + " died with signal " + std::to_string(WTERMSIG(status)) + " (" + strsignal(WTERMSIG(status)) + ") on files written by the library's writers", "");
         } else {
             const int code = WEXITSTATUS(status);
             rep.violations += code & 127;   // witnesses were written by the child under these numbers
@@ -645,10 +675,11 @@ static bool examine(vh::Reporter& rep, Rng& rng, Monitor& m, const std::vector<c
         rep.cover("reader", reader + (withBase ? "+base" : ""));
         section(reader, withBase, [&] {
             ESmry e(top.smspecPath(), withBase);
+            opened();
             e.loadData();
             if (!checkFrame(m, reader, e, c)) return;
             checkESmryOnly(m, reader, e, c);
-            m.series(reader, c, c.keys, [&](const std::string& k) -> const std::vector<float>& { return e.get(k); }, false);
+            m.series(reader, c, m.listed(c.keys), [&](const std::string& k) -> const std::vector<float>& { return e.get(k); }, false);
         });
     }
     // ---- (2) conversion to ESMRY (or the ESMRY file the writer produced itself) and the ESMRY reader ---------------
@@ -658,6 +689,7 @@ static bool examine(vh::Reporter& rep, Rng& rng, Monitor& m, const std::vector<c
         bool converted = o.directEsmry;
         if (o.directEsmry) ++sectionsDone;
         else section("make_esmry_file", false, [&] {
+            opened();
             for (auto* r : all) {
                 ESmry e(r->smspecPath(), false);
                 if (!e.make_esmry_file()) m.viol("make_esmry_file-refused" + m.ctx, "make_esmry_file() returned false although no ESMRY file existed for " + r->name, "");
@@ -667,6 +699,7 @@ static bool examine(vh::Reporter& rep, Rng& rng, Monitor& m, const std::vector<c
         rep.cover("reader", reader);
         if (converted) section(reader, false, [&] {
             ExtESmry x(esmry, false);
+            opened();
             const unsigned how = (unsigned)rng.below(3);
             const auto sel = pickKeys(rng, own, o.allKeys);
             if (how == 0) x.loadData();
@@ -690,14 +723,16 @@ static bool examine(vh::Reporter& rep, Rng& rng, Monitor& m, const std::vector<c
         if (converted && depth > 0) {
             rep.cover("reader", reader + "+base");
             section(reader, true, [&] {
+                if (depth > 1) m.ctx = ":restart:nested";   // what ExtESmry makes of a chain of three is one question, whatever the layouts
                 ExtESmry x(esmry, true);
+                opened();
                 if (!o.directEsmry && (size_t)x.numberOfTimeSteps() == own.steps.size() && own.steps.size() != full.steps.size()) {
                     m.viol("esmry-conversion-drops-restart-link",
                            "ExtESmry(loadBaseRunData=true) on ESMRY files converted from a restarted run and from its base run sees only the run's own " + std::to_string(own.steps.size()) +
-                               " ministeps, not the " + std::to_string(full.steps.size()) + " of base history + own steps (the converted file carries no RESTART/RSTNUM record)", "");
+                               " ministeps, not the " + std::to_string(full.steps.size()) + " of base history + own steps (the converted file carries no RESTART/RSTNUM record)", "", true);
                 } else {
                     x.loadData();
-                    if (checkFrame(m, reader, x, full)) m.series(reader, full, full.keys, [&](const std::string& k) -> const std::vector<float>& { return x.get(k); }, false);
+                    if (checkFrame(m, reader, x, full)) m.series(reader, full, m.listed(full.keys), [&](const std::string& k) -> const std::vector<float>& { return x.get(k); }, false);
                 }
             });
         }
@@ -714,6 +749,7 @@ static bool examine(vh::Reporter& rep, Rng& rng, Monitor& m, const std::vector<c
         rep.cover("reader", reader + (withBase ? "+base" : ""));
         section(reader, withBase, [&] {
             ESmry e(top.smspecPath(), withBase);
+            opened();
             const auto sel = pickKeys(rng, c, o.allKeys);
             const unsigned how = (unsigned)rng.below(4);
             rep.cover("ESmry_seek", how == 0 ? "one list" : how == 1 ? "two lists" : how == 2 ? "lazy get()" : "list then loadData()");
@@ -726,7 +762,7 @@ static bool examine(vh::Reporter& rep, Rng& rng, Monitor& m, const std::vector<c
             if (how == 3) e.loadData();   // vectors already loaded must not be loaded a second time
             if (!checkStructure(m, reader, e, c)) return;
             const long before = m.mismatches;
-            m.series(reader, c, how == 3 ? c.keys : sel, [&](const std::string& k) -> const std::vector<float>& { return e.get(k); }, true);
+            m.series(reader, c, m.listed(how == 3 ? c.keys : sel), [&](const std::string& k) -> const std::vector<float>& { return e.get(k); }, true);
             // TIME is part of every list: once it has compared equal, dates() cannot meet the over-read any more
             if (m.mismatches == before) checkFrame(m, reader, e, c, true);
         });
